@@ -370,10 +370,9 @@ impl Gen<'_> {
             if k.ends_with('/') {
                 continue;
             }
-            if keys.contains(&k) && !(self.f_dup && !self.clean) {
-                continue;
-            }
-            if self.clean && self.live(&b, &k).is_none() {
+            // (since 7d30be5 every requested key is reported as deleted: a clean history may name keys that do not exist and,
+            // in the histories that repeat keys, name a key twice)
+            if keys.contains(&k) && !self.f_dup {
                 continue;
             }
             keys.push(k);
